@@ -55,3 +55,76 @@ Theorem C04_connect_handler_at_most_once :
     (chcount (k_sid k) (k_ns k) (x_log (xrun ac R (xinit m env causes [k]) sched)) <= 1)%nat.
 Proof. exact connect_handler_at_most_once. Qed.
 Print Assumptions C04_connect_handler_at_most_once.
+
+(* The connect handler REFUSES (returns False / raises ConnectionRefusedError), always_connect off
+   or on.  Same setting as C04_connect_in_progress_accept: the request is admitted (manager.connect
+   answers the fresh id [k_sid k], i.e. it is no duplicate), its handler is suspended, then ANY
+   number of terminating tasks - aimed at the established sessions, at the new session, at the
+   transport itself - are interleaved in ANY order with the rest of the connect (handler, with
+   always_connect pre_disconnect and its KeyError path, the send, finally manager.disconnect).
+   The refusal does touch the manager, so the state is NOT that of the run without the connect;
+   what is proved, at any moment of any schedule ([c] = manager / environ / terminating tasks
+   and their log):
+   (b) for every session id OTHER than the refused one (fresh, hence every established id), as in
+       C04_once_async judged from m0, the state BEFORE the request: the disconnect handler ran at
+       most once and only for a client connected at the start; a client whose handler has not
+       run keeps every membership, an id none of whose handlers has run keeps its callbacks; once
+       the terminating tasks are done a client whose handler has run is in no room, not
+       connected and its callbacks are gone;
+   (c) once the connect task is done its handler has run exactly once, and
+   (a) the refused session is in no room of any namespace, not connected and has no callbacks,
+       whatever the other tasks did to it in between;
+   and when everything is done nothing at all is pending.
+   PARTIAL - missing relative to [outcome]: (i) o_final's "exactly once for every client some
+   cause was aimed at" is only proved as "at most once, and if it ran nothing is left" (the
+   progress invariant Ahead of ConcProofs.v has not been redone beside the refusal);
+   (ii) o_no_raise for the terminating tasks (invariant Calm; the always_connect refusal itself
+   can raise KeyError, see notes/C04.md); (iii) the two environ clauses.  The invariant
+   proved (SafeA in Conc/ConnProofs.v) contains what (i) and (ii) need from the manager: an
+   open check-then-mark window is about a connected client, and pending_disconnect holds
+   exactly the marks of the tasks that own them. *)
+Theorem C04_connect_in_progress_refuse_partial :
+  forall ac R m0 env0 causes k,
+    quiescent_start m0 -> fresh_sid m0 (k_sid k) -> memb (k_eio k) env0 = true -> k_accept k = false ->
+    snd (mgr_connect m0 (k_eio k) (k_ns k) (k_sid k)) <> None ->
+    forall sched,
+      let x := xrun ac R (xinit m0 env0 causes [k]) (to_handler ac (List.length causes) ++ sched) in
+      let c := x_cfg x in
+      (forall s ns, s <> k_sid k -> (hcount s ns (c_log c) <= 1)%nat) /\
+      (forall s ns, s <> k_sid k -> (1 <= hcount s ns (c_log c))%nat -> in_room m0 ns PNone s = true) /\
+      (forall s ns r, s <> k_sid k -> hcount s ns (c_log c) = 0%nat -> room_ok r ->
+         in_room (c_mgr c) ns r s = in_room m0 ns r s) /\
+      (forall s, s <> k_sid k -> (forall ns, hcount s ns (c_log c) = 0%nat) ->
+         aget str_eqb (callbacks (c_mgr c)) s = aget str_eqb (callbacks m0) s) /\
+      (all_done c = true -> forall s ns, s <> k_sid k -> hcount s ns (c_log c) = 1%nat ->
+         (forall r, room_ok r -> in_room (c_mgr c) ns r s = false) /\
+         is_connected (c_mgr c) (Some s) ns = false /\
+         aget str_eqb (callbacks (c_mgr c)) s = None) /\
+      (forallb cdone (x_conns x) = true ->
+         chcount (k_sid k) (k_ns k) (x_log x) = 1%nat /\
+         (forall ns r, room_ok r -> in_room (c_mgr c) ns r (k_sid k) = false) /\
+         (forall ns, is_connected (c_mgr c) (Some (k_sid k)) ns = false) /\
+         aget str_eqb (callbacks (c_mgr c)) (k_sid k) = None) /\
+      (xall_done x = true -> forall s ns, is_pending (c_mgr c) s ns = false).
+Proof. exact connect_in_progress_refuse_partial. Qed.
+Print Assumptions C04_connect_in_progress_refuse_partial.
+
+(* Manager level, for ANY well-formed manager (no freshness, no quiescence): manager.disconnect
+   of one session id - the finally of the refusal - is invisible to every other id: rooms of
+   every namespace, is_connected, pending_disconnect marks and callbacks are unchanged. *)
+Theorem C04_refusal_invisible_to_other_sids :
+  forall m sid ns, WF m ->
+    let m' := mgr_disconnect m sid ns in
+    WF m' /\
+    forall s', s' <> sid ->
+      (forall ns' r, room_ok r -> mem m' ns' r s' = mem m ns' r s') /\
+      (forall ns', mb m' ns' s' = mb m ns' s') /\
+      (forall ns', MgrFacts.pcount m' ns' s' = MgrFacts.pcount m ns' s') /\
+      (forall ns', is_connected m' (Some s') ns' = is_connected m (Some s') ns') /\
+      aget str_eqb (callbacks m') s' = aget str_eqb (callbacks m) s'.
+Proof. exact refusal_frame_mgr. Qed.
+Print Assumptions C04_refusal_invisible_to_other_sids.
+
+(* the hypotheses of the refusing case are satisfiable (always_connect, transport lost while the
+   handler is suspended, KeyError path of the refusal) *)
+Example C04_refuse_hypotheses_satisfiable := x_refuse_start.
